@@ -29,7 +29,7 @@ def _is_nondet(name: str) -> bool:
     return any(name.startswith(p) for p in NONDET_PREFIXES)
 
 
-@rule("C14", "R1", "CENSUS", "closed set of randomness / nondeterminism sources", floor=2)
+@rule("C14", "R1", "CENSUS", "closed set of randomness / nondeterminism sources", floor=2, evidence=True)
 def r1(ctx):
     ana = ctx.ana
     sites = all_calls(ana, _is_nondet)
@@ -479,7 +479,7 @@ def _is_module_symbol(ana, mi, name) -> bool:
     return name in mi.globals or name in mi.imports
 
 
-@rule("C14", "R6", "PURE", "no cross-call state: no function writes module-level bindings or containers")
+@rule("C14", "R6", "PURE", "no cross-call state: no function writes module-level bindings or containers", evidence=True)
 def r6(ctx):
     writes = module_state_writes(ctx.ana)
     if not writes:
@@ -490,7 +490,7 @@ def r6(ctx):
                  expected="results do not depend on earlier calls", found=unparse(node))
 
 
-@rule("C14", "R4", "PURE", "an optimisation task writes nothing but objects it allocated itself and reads no mutable module state", floor=2)
+@rule("C14", "R4", "PURE", "an optimisation task writes nothing but objects it allocated itself and reads no mutable module state", floor=2, evidence=True)
 def r4(ctx):
     from .own import describe, ownership
     ana = ctx.ana
@@ -523,7 +523,7 @@ def r4(ctx):
               expected="loggers and constants only", found=", ".join(f"{short(f.qualname)}:{n.id}" for f, n in reads)[:160])
 
 
-@rule("C14", "R5", "PURE", "memoised helpers depend only on their hashable arguments and their results are never modified", floor=4)
+@rule("C14", "R5", "PURE", "memoised helpers depend only on their hashable arguments and their results are never modified", floor=4, evidence=True)
 def r5(ctx):
     from .own import describe, ownership
     ana = ctx.ana
